@@ -723,7 +723,12 @@ class Resolver:
             extract_dir = self.dirname
         try:
             shutil.unpack_archive(path, extract_dir)
-        except OSError as e:
+        except Exception as e:
+            # tarfile and zipfile raise their own exception types for a damaged
+            # archive. Do not leave a partially unpacked tree behind either: the
+            # next run would take it for the finished subproject.
+            if os.path.isdir(self.dirname):
+                windows_proof_rmtree(self.dirname)
             raise WrapException(f'failed to unpack archive with error: {str(e)}') from e
 
     def _get_git(self, packagename: str) -> None:
